@@ -436,6 +436,8 @@ class Executor:
     # -------------------------------------------------------------- scalars
     def truth(self, st, v, node=None):
         """z3 Bool (or python bool) for the truth value of v"""
+        if hasattr(v, 'abs_truth'):
+            return v.abs_truth(self, st)
         if isinstance(v, bool):
             return v
         if v is None:
@@ -684,6 +686,10 @@ class Executor:
                   ast.GtE: ta >= tb}[type(op)])
 
     def identical(self, st, a, b):
+        if hasattr(a, 'abs_is'):
+            return a.abs_is(self, st, b)
+        if hasattr(b, 'abs_is'):
+            return b.abs_is(self, st, a)
         if a is None or b is None:
             x = b if a is None else a
             if x is None:
@@ -712,6 +718,10 @@ class Executor:
         return z3.Bool(self.fresh('same_object'))
 
     def equal(self, st, a, b, node):
+        if hasattr(a, 'abs_eq'):
+            return a.abs_eq(self, st, b)
+        if hasattr(b, 'abs_eq'):
+            return b.abs_eq(self, st, a)
         if a is None or b is None:
             return self.identical(st, a, b)
         if isinstance(a, str) or isinstance(b, str):
@@ -774,6 +784,12 @@ class Executor:
         return ta == tb
 
     def contains(self, st, container, item, node):
+        if hasattr(container, 'abs_contains'):
+            return container.abs_contains(self, st, item)
+        if isinstance(container, Ref) and self.lib.hooks.get('contains'):
+            r = self.lib.hooks['contains'](self, st, container, item, node)
+            if r is not NOTFOUND:
+                return r
         if isinstance(container, (tuple, list)):
             rs = [self.equal(st, item, x, node) for x in container]
             if any(r is True for r in rs):
@@ -1109,6 +1125,8 @@ class Executor:
         return self.binop(st, n.op, a, b, n)
 
     def binop(self, st, op, a, b, n):
+        if hasattr(a, 'abs_binop'):
+            return a.abs_binop(self, st, op, b, n)
         if isinstance(a, Ref) or isinstance(b, Ref):
             la = isinstance(a, Ref) and st.heap[a.oid].kind == 'list'
             lb = isinstance(b, Ref) and st.heap[b.oid].kind == 'list'
@@ -1233,6 +1251,11 @@ class Executor:
         return self.getattr(st, v, n.attr, n)
 
     def getattr(self, st, v, attr, n):
+        if hasattr(v, 'abs_getattr'):
+            r = v.abs_getattr(self, st, attr, n)
+            if r is not NOTFOUND:
+                return r
+            return BoundMethod(v, attr)
         if isinstance(v, Ext):
             return self.lib.ext_attr(self, st, v, attr, n)
         if isinstance(v, Ref):
@@ -1267,6 +1290,8 @@ class Executor:
         return self.ev(s, st, fid)
 
     def getitem(self, st, v, idx, n):
+        if hasattr(v, 'abs_getitem'):
+            return v.abs_getitem(self, st, idx, n)
         if isinstance(v, tuple):
             c, k = const_of(idx)
             if c and isinstance(k, int):
@@ -1369,6 +1394,8 @@ class Executor:
         if isinstance(f, Ext):
             return self.lib.call_ext(self, st, f.name, args, kwargs, n)
         if isinstance(f, BoundMethod):
+            if hasattr(f.obj, 'abs_method'):
+                return f.obj.abs_method(self, st, f.name, args, kwargs, n)
             return self.lib.call_method(self, st, f.obj, f.name, args, kwargs,
                                         n)
         if isinstance(f, Unknown):
@@ -1775,6 +1802,8 @@ class Executor:
             raise Unsupported('assignment target %s' % type(t).__name__)
 
     def setitem(self, st, base, idx, v, s):
+        if hasattr(base, 'abs_setitem'):
+            return base.abs_setitem(self, st, idx, v, s)
         if base is None:
             raise PyRaise('TypeError', "'NoneType' object does not support "
                           "item assignment")
